@@ -958,10 +958,29 @@ func (fl *File) writeAtLocked(b []byte, off int64) (int, error) {
 	return len(b), nil
 }
 
+// ShortWrite, returned by a hook in the Before phase of File.WriteAt, makes the call store only
+// the first N bytes and return (N, Err): a backend that takes part of the buffer.
+type ShortWrite struct {
+	N   int
+	Err error
+}
+
+func (s *ShortWrite) Error() string { return "short write" }
+
 func (fl *File) WriteAt(b []byte, off int64) (int, error) {
 	op := fl.op("WriteAt", true)
 	op.Off, op.Len = off, len(b)
 	if err := fl.fs.begin(op); err != nil {
+		if sw, ok := err.(*ShortWrite); ok && sw.N >= 0 && sw.N <= len(b) {
+			fl.fs.mu.Lock()
+			n, werr := fl.writeAtLocked(b[:sw.N], off)
+			fl.fs.mu.Unlock()
+			if werr == nil {
+				werr = sw.Err
+			}
+			fl.fs.end(op, werr)
+			return n, werr
+		}
 		fl.fs.end(op, err)
 		return 0, err
 	}
